@@ -7,6 +7,7 @@ import PgVerif.Model.LineCol
 import PgVerif.Model.TableGen
 import PgVerif.Spec.LR1
 import PgVerif.Spec.LRValid
+import PgVerif.Proofs.LRDet
 import PgVerif.Spec.Prec
 import PgVerif.Spec.LexRules
 import PgVerif.Proofs.LexRules
@@ -450,6 +451,15 @@ def handle (st : St) (cmd : String) (args : List Nat) : St × String :=
         let bad := (List.range T.n).filter (fun s => !(I s).all (LRV.itemOK st.g T I F s))
         s!"lrvalid 0 closed={F.closed st.g} start={LRV.hasItem (I 0) 0 0 []} badstates={bad.take 5}")
     | _, _ => (st, "bad-lrvalid")
+  | "detok" =>
+    -- detok: the executable hypotheses of C04_exact_when_deterministic on the current table and input:
+    -- <detTableB: every cell at most one action, finish flags per cell, cell terminals distinct>
+    -- <lexDetB: no two expected terminals of a state match the same position>
+    match st.T, st.inp with
+    | some T, some inp =>
+      let b := fun (x : Bool) => if x then 1 else 0
+      (st, "detok " ++ natList [b (detTableB T), b (lexDetB T inp)])
+    | _, _ => (st, "bad-detok")
   | "fwf" => (st, if st.F.wf then "fwf 1" else "fwf 0")
   | "fkeyed" =>
     -- fkeyed <lhs of production 0> <lhs of production 1> ...: hypothesis of C03_parse_trees_pairwise_distinct
